@@ -476,7 +476,71 @@ def rule_one_shot(model):
                              'an attribute / container entry')
 
 
-RULES = [rule_hidden_state, rule_recook, rule_getstate, rule_file,
+IMMUTABLE_CALLS = {'str', 'int', 'float', 'bool', 'tuple', 'frozenset',
+                   'bytes', 'len', 'repr', 'join', 'format', 'decode',
+                   'encode', 'lower', 'upper', 'strip', 'replace', 'compile'}
+
+
+def _maybe_mutable(model, fi, e, _depth=0):
+    if e is None or isinstance(e, (ast.Constant, ast.JoinedStr)):
+        return False
+    if isinstance(e, (ast.List, ast.Dict, ast.Set, ast.ListComp,
+                      ast.DictComp, ast.SetComp)):
+        return True
+    if isinstance(e, ast.Tuple):
+        return any(_maybe_mutable(model, fi, x, _depth) for x in e.elts)
+    if isinstance(e, ast.BinOp):
+        return _maybe_mutable(model, fi, e.left, _depth) or \
+            _maybe_mutable(model, fi, e.right, _depth)
+    if isinstance(e, ast.Call):
+        f = e.func
+        nm = f.id if isinstance(f, ast.Name) else (
+            f.attr if isinstance(f, ast.Attribute) else '')
+        return nm not in IMMUTABLE_CALLS
+    if isinstance(e, ast.Name) and _depth < 3:
+        defs = [d for d in model.local_defs(fi, e.id)]
+        if not defs:
+            return True
+        return any(d == 'param' or not isinstance(d, ast.AST) or
+                   _maybe_mutable(model, fi, d, _depth + 1) for d in defs)
+    return True
+
+
+def rule_memo_immutable(model):
+    r = RuleResult('C17.R9', 'a function whose results are memoised '
+                   '(lru_cache / cache / a memo decorator) hands out '
+                   'immutable values only: a cached list or dict is one '
+                   'object for every later call, and this code base '
+                   'updates decoded states, option dicts and block lists '
+                   'in place')
+    n = 0
+    for fi in model.all_funcs():
+        n += 1
+        for dec in fi.node.decorator_list:
+            d = dec.func if isinstance(dec, ast.Call) else dec
+            nm = norm(d).split('.')[-1].lower()
+            if not ('cache' in nm or 'memo' in nm):
+                continue
+            rets = [x for x in own_nodes(fi.node)
+                    if isinstance(x, ast.Return) and x.value is not None]
+            bad = [x for x in rets if _maybe_mutable(model, fi, x.value)]
+            r.instance(fi.where, f'@{norm(dec)}', 'immutable results'
+                       if not bad else 'MUTABLE RESULT CACHED')
+            for x in bad[:1]:
+                r.finding(fi.where, f'@{norm(dec)} def {fi.name}: '
+                          f'{norm(x)}', f'{fi.name}() is memoised and can '
+                          f'return a mutable object (`{norm(x.value)}`): '
+                          'every caller with the same argument gets the '
+                          'same object, so an in-place update by one '
+                          'rendering is seen by all later ones (and by '
+                          'freshly built templates)', node=x, ctx=fi)
+    r.instance('<all modules>', f'{n} functions', 'decorators scanned')
+    if n < 100:
+        raise AnalysisError('C17.R9: fewer than 100 functions scanned')
+    return r
+
+
+RULES = [rule_memo_immutable, rule_hidden_state, rule_recook, rule_getstate, rule_file,
          rule_caller_data, rule_defaults, rule_munge, rule_one_shot]
 EXPLANATION = (
     'Enumeration of attribute / item stores and container mutations in '
